@@ -901,13 +901,16 @@ func (w *streamWriter) Close() error {
 	}
 
 	w.parent.inStream = false
-	for _, pair := range w.parent.afterStream {
+	// Take the queue before writing it out: a queued stream object is written
+	// through OpenStream, and closing that stream runs this code again.
+	queued := w.parent.afterStream
+	w.parent.afterStream = nil
+	for _, pair := range queued {
 		err = w.parent.Put(pair.ref, pair.obj)
 		if err != nil {
 			return err
 		}
 	}
-	w.parent.afterStream = w.parent.afterStream[:0]
 
 	return nil
 }
